@@ -759,6 +759,21 @@ open GeoVerif.Calendar in
 example : dayChecked 2024 2 29 = some (dayRaw 2024 2 29) ∧ dayChecked 1752 9 10 = none ∧ dayChecked 1900 2 29 = none := by decide
 
 open GeoVerif.Calendar in
+/-- **`date` is strictly increasing** (lexicographic order of (y, m, d), `dateKey = 10000 y + 100 m + d`) on ALL day numbers from 1 on -/
+theorem date_strictMono (s t : Int) (hs : 1 ≤ s) (hst : s < t) : dateKey (dateRaw s) < dateKey (dateRaw t) :=
+  dateRaw_strictMono s t hs hst
+
+open GeoVerif.Calendar in
+/-- **`day` orders the valid dates as the calendar does**: earlier date ⇔ smaller day number (hence differences of day numbers, as
+`fractionalyear` uses them, count the days between two dates) -/
+theorem day_lt_iff (y m d y' m' d' : Int) (h : Valid y m d) (h' : Valid y' m' d') :
+    dayRaw y m d < dayRaw y' m' d' ↔ dateKey (y, m, d) < dateKey (y', m', d') :=
+  dayRaw_lt_iff y m d y' m' d' h h'
+
+open GeoVerif.Calendar in
+example : Valid 1752 9 2 ∧ Valid 1752 9 14 ∧ dateKey (1752, 9, 2) < dateKey (1752, 9, 14) ∧ dayRaw 1752 9 2 < dayRaw 1752 9 14 := by decide
+
+open GeoVerif.Calendar in
 /-- documented anchors: 0001-01-01 is day 1 and a Saturday; 1752-09-02 (Wednesday) is followed by 1752-09-14 (Thursday) = day 639799;
     2000-01-01 was a Saturday, 1970-01-01 a Thursday; 1700 and 1752 have a February 29, 1800 and 1900 do not, 2000 does -/
 theorem calendar_anchors :
